@@ -36,9 +36,13 @@ CONFIGS = {
 
 
 # ---- (a) explicit-state search over the two real wait queues -----------------------------------------
-def waitq_search(depth):
+def waitq_search(depth, cap=400000):
+    """BFS over push/pop sequences applied in lock-step to the two real classes and a reference.
+    Visited-state key = canonical content PLUS the internal key layout of the heap backend: equal content reached by a
+    different push order can sit differently in the heap, and a layout-dependent defect must not be merged away."""
+    import copy
     from usim._core.waitq import HQWaitQueue, SDWaitQueue
-    KEYS = (0, 1, 2, float('inf'))
+    KEYS = (1, 2, 3, 10, 20, 21, 22, float('inf'))
 
     class Ref:
         def __init__(self):
@@ -57,61 +61,60 @@ def waitq_search(depth):
         def __len__(self):
             return sum(len(v) for v in self.d.values())
 
-    def build(hist):
-        qs = [HQWaitQueue(), SDWaitQueue(), Ref()]
-        n = 0
-        for op in hist:
-            if op == 'pop':
-                for q in qs:
-                    q.pop()
-            else:
-                for q in qs:
-                    q.push(op, n)
-                n += 1
-        return qs, n
-
-    def canon(ref):
-        # relabel items in order of appearance: futures of isomorphic contents are isomorphic
+    def canon(qs):
+        ref = qs[2]
         out, ren = [], {}
         for k in sorted(ref.d):
             out.append((k, tuple(ren.setdefault(x, len(ren)) for x in ref.d[k])))
-        return tuple(out)
+        layout = tuple(getattr(qs[0], '_keys', ()))
+        return (tuple(out), layout)
 
-    seen = {()}
-    frontier = collections.deque([()])
+    start = [HQWaitQueue(), SDWaitQueue(), Ref()]
+    seen = {canon(start)}
+    frontier = collections.deque([(start, (), 0)])
     transitions = 0
     msgs = []
     samples = []
+    capped = False
     while frontier:
-        hist = frontier.popleft()
+        qs0, hist, n0 = frontier.popleft()
         if len(hist) >= depth:
             continue
-        qs0, n0 = build(hist)
-        ops = list(KEYS) + (['pop'] if qs0[2] else [])
+        # one push per distinct new key is enough for the heap; a second item on an existing key exercises the deque
+        present = set(qs0[2].d)
+        ops = [k for k in KEYS if k not in present] + ([min(present)] if present and len(hist) < 4 else []) + (['pop'] if qs0[2] else [])
         for op in ops:
-            qs, n = build(hist)
+            qs = copy.deepcopy(qs0)
+            n = n0
             transitions += 1
             if op == 'pop':
-                res = [q.pop() for q in qs]
+                try:
+                    res = [q.pop() for q in qs]
+                except Exception as e:      # noqa
+                    msgs.append('after %r: pop raised %r' % (hist, e))
+                    return msgs, len(seen), transitions, samples, capped
                 obs = [(k, list(items)) for k, items in res]
                 if not (obs[0] == obs[1] == obs[2]):
                     msgs.append('after %r: pop gives heap=%r SD=%r reference=%r' % (hist, obs[0], obs[1], obs[2]))
             else:
                 for q in qs:
                     q.push(op, n)
+                n += 1
             state = [(bool(q), len(q)) for q in qs]
             if not (state[0] == state[1] == state[2]):
                 msgs.append('after %r + %r: (bool, len) heap=%r SD=%r reference=%r' % (hist, op, state[0], state[1], state[2]))
             if msgs:
-                return msgs, len(seen), transitions, samples
-            c = canon(qs[2])
+                return msgs, len(seen), transitions, samples, capped
+            c = canon(qs)
             if c not in seen:
+                if len(seen) >= cap:
+                    capped = True
+                    continue
                 seen.add(c)
-                frontier.append(hist + (op,))
-                if len(samples) < 3 and len(hist) >= 3:
+                frontier.append((qs, hist + (op,), n))
+                if len(samples) < 3 and len(hist) >= 4:
                     samples.append({'history': [str(x) for x in hist + (op,)], 'state': str(c)})
-    # drain check: popping everything yields keys in ascending order, per key in push order - covered by pop steps above
-    return msgs, len(seen), transitions, samples
+    return msgs, len(seen), transitions, samples, capped
 
 
 # ---- corpora ---------------------------------------------------------------------------------------
@@ -206,12 +209,16 @@ def spawn(tier, which, cfg, env_extra, lo, hi, step):
     return subprocess.Popen(cmd, cwd=VERIF, env=env, stdout=subprocess.PIPE, stderr=subprocess.PIPE, text=True)
 
 
-def run_matrix(tier, which, configs, shards):
+def start_matrix(tier, which, configs, shards):
     n = len(corpus(tier, which))
     procs = {}
     for name, (cfg, extra) in configs.items():
         for s in range(shards):
             procs[(name, s)] = spawn(tier, which, cfg, extra, s, n, shards)
+    return procs
+
+
+def collect_matrix(procs, configs):
     results = {name: {} for name in configs}
     errors = []
     for (name, s), p in procs.items():
@@ -230,15 +237,17 @@ def run(tier, seed):
     vrun.setup_process()
     repo = os.environ.get('VERIF_REPO', '/repo')
     violations = []
+    # the subprocesses of (b) and (c) are started first; (a) runs in this process meanwhile
+    shards = 2
+    confs = {name: (cfg, {}) for name, cfg in CONFIGS.items()}
+    procs_b = start_matrix(tier, 'config', confs, shards)
     # (a)
-    depth = 7 if tier == 'quick' else 10
-    msgs, states, transitions, samples = waitq_search(depth)
+    depth = 10 if tier == 'quick' else 12
+    msgs, states, transitions, samples, capped = waitq_search(depth, 150000 if tier == 'quick' else 1500000)
     for m in msgs:
         violations.append({'part': 'waitq', 'msgs': [m]})
     # (b) configuration product
-    shards = 2
-    confs = {name: (cfg, {}) for name, cfg in CONFIGS.items()}
-    res, errors = run_matrix(tier, 'config', confs, shards)
+    res, errors = collect_matrix(procs_b, confs)
     prog_b = corpus(tier, 'config')
     execs = 0
     compared = 0
@@ -259,7 +268,7 @@ def run(tier, seed):
     # (c) iteration order of unordered containers as a choice
     from .. import choicesets
     pol = {p: ({}, {'VK_SET_POLICY': p}) for p in choicesets.POLICIES}
-    res_c, err_c = run_matrix(tier, 'sets', pol, shards)
+    res_c, err_c = collect_matrix(start_matrix(tier, 'sets', pol, shards), pol)
     errors += err_c
     prog_c = corpus(tier, 'sets')
     if not err_c:
@@ -309,13 +318,13 @@ def run(tier, seed):
             'traces_validated_against_impl': transitions + execs,
             'samples': samples + [{'program': prog_b[k]}, {'program': prog_c[seed % len(prog_c)]}],
             'evaluations': execs, 'distinct_nontrivial': compared,
-            'rule': '(a) BFS over all push(k in {0,1,2,inf})/pop sequences to depth %d applied in lock-step to HQWaitQueue, SDWaitQueue and a '
-                    'dict reference, states deduplicated on canonical content; (b) %d corpus programs (strided union of all native families), '
+            'rule': '(a) BFS over all push(k in {1,2,3,10,20,21,22,inf})/pop sequences to depth %d applied in lock-step to HQWaitQueue, SDWaitQueue and a '
+                    'dict reference, visited states keyed by canonical content plus the heap backend\'s internal key layout; (b) %d corpus programs (strided union of all native families), '
                     'each fault-free and with a cancel at every activation boundary, under %d configurations in fresh processes, digests must '
                     'be equal; (c) %d programs under all %d iteration-order policies of injected set/frozenset/WeakSet. distinct_nontrivial = '
                     'number of (program, configuration) digest comparisons made' % (depth, len(prog_b), len(CONFIGS), len(prog_c), len(pol)),
-            'exhaustive': True,
-            'bounds': {'waitq_depth': depth, 'configurations': list(CONFIGS), 'set_policies': list(pol),
+            'exhaustive': not capped,
+            'bounds': {'waitq_depth': depth, 'waitq_state_cap_hit': capped, 'configurations': list(CONFIGS), 'set_policies': list(pol),
                        'corpus_programs': len(prog_b), 'sets_programs': len(prog_c)},
             'unordered_constructions_by_name': by_name, 'unordered_literals_not_interceptable': literal,
         },
@@ -331,7 +340,7 @@ def run(tier, seed):
 def replay(case, faults):
     """re-run the one program under the two configurations / policies in fresh processes and compare"""
     if case['part'] == 'waitq':
-        return waitq_search(10)[0]
+        return waitq_search(12)[0]
     if case['part'] == 'config' and any(c.startswith('heap') for c in case['configs']):
         # address-dependent: reproduce by running the very same shard of the corpus in the same two configurations
         lo, n, step = case['shard']
